@@ -526,6 +526,9 @@ func bvCmp(op Op, a, b *Term) *Term {
 			if a.Op == OpConst && ub < top && a.Val >= top {
 				return TTrue
 			}
+			if a.Op == OpConst && a.Val == 0 && ub < top {
+				return TTrue // 0 <= non-negative value
+			}
 		}
 	}
 	return &Term{Op: op, S: SBool, Args: []*Term{a, b}}
